@@ -517,12 +517,12 @@ func main() {
 	}
 	corpus(c)
 	floatCases(c, c.Scale(300, 6000))
-	n := c.Scale(400, 12000)
+	n := c.Scale(250, 12000)
 	for i := 0; i < n; i++ {
 		scenario(c, false, false)
 	}
 	m := c.Scale(60, 1500) // accepted messages whose 137 mutations are all run on the implementation
-	mm := c.Scale(4, 100)  // ... of which this many also go through the model
+	mm := c.Scale(3, 100)  // ... of which this many also go through the model
 	for i := 0; i < m; i++ {
 		scenario(c, true, i < mm)
 	}
